@@ -11,6 +11,17 @@
 (* function UpdateResult of Witness.tla.  TLC searches for a placement of  *)
 (* the Lin steps that explains every logged reply: a linearizability       *)
 (* check.  Several traces are concatenated with Reset events.              *)
+(*                                                                         *)
+(* Storage faults.  In some traces another database connection takes a     *)
+(* lock for a while (SHARED: commits fail; RESERVED: inserts fail;         *)
+(* EXCLUSIVE: every statement fails).  The harness logs FaultOn before it  *)
+(* tries to take the lock and FaultOff after it has released it, so the    *)
+(* real fault window lies inside the logged one: a call linearized inside  *)
+(* a logged window may have met the fault or not (both are tried), a call  *)
+(* linearized outside has not.  Whichever is chosen, the reply and the     *)
+(* effect on `held` are those of UpdateResult / GetSTHReply for that       *)
+(* fault: a call that was answered with a cosigned STH has stored it.      *)
+(* Requests may spell the log id differently (field sp).                   *)
 (***************************************************************************)
 EXTENDS Witness, Json, IOUtils, Integers
 
@@ -19,15 +30,17 @@ Trace == ndJsonDeserialize(IOEnv.TRACE_FILE)
 Callers == 1..8
 
 VARIABLES l,        \* next line of Trace to consume
-          pending   \* [Callers -> None or the call in flight]
+          pending,  \* [Callers -> None or the call in flight]
+          fwin      \* the logged fault window we are in ("none" outside)
 
-tvars == <<held, hist, last, l, pending>>
+tvars == <<held, cos, hist, last, l, pending, fwin>>
 
 Idle == [k |-> "idle"]
 
 TraceInit == /\ Init
              /\ l = 1
              /\ pending = [c \in Callers |-> Idle]
+             /\ fwin = "none"
              /\ TLCSet(1, 1)
 
 Ev(name) == l <= Len(Trace) /\ Trace[l].ev = name
@@ -39,34 +52,54 @@ CandOf(j) == IF j.k = "sth" THEN [k |-> "sth", fam |-> j.fam, size |-> j.size, t
 TraceReset ==
   /\ Ev("Reset")
   /\ \A c \in Callers : pending[c] = Idle
+  /\ fwin = "none"
   /\ held' = [x \in Logs |-> None]
+  /\ cos' = [x \in Logs |-> None]
   /\ l' = l + 1
-  /\ UNCHANGED <<hist, last, pending>>
+  /\ UNCHANGED <<hist, last, pending, fwin>>
+
+TraceFaultOn ==
+  /\ Ev("FaultOn")
+  /\ fwin = "none"
+  /\ Trace[l].f \in {"commit", "write", "read"}
+  /\ fwin' = Trace[l].f
+  /\ l' = l + 1
+  /\ UNCHANGED <<held, cos, hist, last, pending>>
+
+TraceFaultOff ==
+  /\ Ev("FaultOff")
+  /\ fwin # "none"
+  /\ fwin' = "none"
+  /\ l' = l + 1
+  /\ UNCHANGED <<held, cos, hist, last, pending>>
 
 TraceInvoke ==
   /\ Ev("Invoke")
   /\ LET e == Trace[l] IN
      /\ pending[e.c] = Idle
-     /\ pending' = [pending EXCEPT ![e.c] = [k |-> "call", op |-> e.op, log |-> e.log, cand |-> CandOf(e.cand),
+     /\ e.sp \in Spellings
+     /\ pending' = [pending EXCEPT ![e.c] = [k |-> "call", op |-> e.op, log |-> e.log, sp |-> e.sp, cand |-> CandOf(e.cand),
                                              pf |-> e.pf, lin |-> FALSE, reply |-> NoBody]]
   /\ l' = l + 1
-  /\ UNCHANGED <<held, hist, last>>
+  /\ UNCHANGED <<held, cos, hist, last, fwin>>
 
-\* silent: the call of caller c takes effect
-Lin(c) ==
+\* silent: the call of caller c takes effect, having met fault f
+LinF(c, f) ==
   /\ pending[c] # Idle /\ ~pending[c].lin
   /\ LET p == pending[c] IN
      IF p.op = "Update" THEN
-        LET r == UpdateResult(p.log, p.cand, p.pf) IN
+        LET r == UpdateResult(p.log, p.sp, p.cand, p.pf, f) IN
         /\ held' = IF r.store THEN [held EXCEPT ![p.log] = p.cand] ELSE held
+        /\ cos' = IF r.reply.kind = "cosigned" THEN [cos EXCEPT ![p.log] = r.reply.sth] ELSE cos
         /\ pending' = [pending EXCEPT ![c].lin = TRUE, ![c].reply = r.reply]
      ELSE \* GetSTH
+        LET reply == GetSTHReply(p.log, p.sp, f) IN
         /\ UNCHANGED held
-        /\ pending' = [pending EXCEPT ![c].lin = TRUE,
-                         ![c].reply = IF p.log \in Logs /\ held[p.log] # None
-                                      THEN Reply("OK", "cosigned", held[p.log])
-                                      ELSE Reply("NotFound", "none", None)]
-  /\ UNCHANGED <<hist, last, l>>
+        /\ cos' = IF reply.kind = "cosigned" THEN [cos EXCEPT ![p.log] = reply.sth] ELSE cos
+        /\ pending' = [pending EXCEPT ![c].lin = TRUE, ![c].reply = reply]
+  /\ UNCHANGED <<hist, last, l, fwin>>
+
+Lin(c) == LinF(c, "none") \/ (fwin # "none" /\ LinF(c, fwin))
 
 TraceReturn ==
   /\ Ev("Return")
@@ -75,14 +108,14 @@ TraceReturn ==
      /\ pending[e.c].reply = Reply(e.code, e.kind, CandOf(e.sth))
      /\ pending' = [pending EXCEPT ![e.c] = Idle]
   /\ l' = l + 1
-  /\ UNCHANGED <<held, hist, last>>
+  /\ UNCHANGED <<held, cos, hist, last, fwin>>
 
-TraceNext == TraceReset \/ TraceInvoke \/ TraceReturn \/ \E c \in Callers : Lin(c)
+TraceNext == TraceReset \/ TraceInvoke \/ TraceReturn \/ TraceFaultOn \/ TraceFaultOff \/ \E c \in Callers : Lin(c)
 
 TraceSpec == TraceInit /\ [][TraceNext]_tvars
 
 \* hist / last are constant here; they would make every linearization order a distinct state
-TraceView == <<held, l, pending>>
+TraceView == <<held, cos, l, pending, fwin>>
 
 \* high-water mark of consumed lines (the search takes silent steps, so the diameter is no measure)
 HighWater == TLCSet(1, IF TLCGet(1) < l THEN l ELSE TLCGet(1))
@@ -94,5 +127,6 @@ TraceAccepted ==
 
 \* the property on every state the real execution passed through
 TraceOnlySigned == OnlySigned
-TraceForwardOnly == [][(Ev("Reset") /\ l' = l + 1) \/ ForwardStep]_tvars
+TraceCosignedHeld == CosignedHeld
+TraceForwardOnly == [][(Ev("Reset") /\ l' = l + 1) \/ (ForwardStep /\ CosignedForwardStep)]_tvars
 =============================================================================
